@@ -275,7 +275,7 @@ V2_Revisions(m, t) == \A i \in DOMAIN t.rev : LET r == t.rev[i] IN
        /\ AuthOK(r.auth)                           \* signed by the keys of the contract as it currently stands
 V2_Resolutions(m, t) == \A i \in DOMAIN t.res : LET r == t.res[i] IN
   /\ ParentOK2(m, t, r.cid, {t.rev[k].cid : k \in DOMAIN t.rev} \cup {t.res[k].cid : k \in 1..(i - 1)})
-  /\ LET c == c2[r.cid] IN       \* resolutions are judged against the committed parent
+  /\ LET c == m.c2[r.cid] IN     \* the contract as it stands after earlier revisions in this block (its current keys)
        CASE r.kind = "renew" ->
               /\ r.ren.fr + r.ren.rr + r.ren.fh + r.ren.hr = c.r + c.h
               /\ r.ren.rr + r.ren.hr <= r.ren.nc.r + r.ren.nc.h + Tax2(r.ren.nc.r, r.ren.nc.h)
@@ -294,7 +294,7 @@ Claims2(m, t) == Claims(m, t)
 RECURSIVE ResOuts2(_, _, _)
 ResOuts2(m, t, i) ==
   IF i > Len(t.res) THEN <<>>
-  ELSE LET r == t.res[i]  c == c2[r.cid]
+  ELSE LET r == t.res[i]  c == m.c2[r.cid]
            rv == IF r.kind = "renew" THEN r.ren.fr ELSE c.r
            hv == IF r.kind = "renew" THEN r.ren.fh ELSE IF r.kind = "expire" THEN c.mh ELSE c.h
        IN (Derive(RENTER, r.cid) :> [val |-> rv, addr |-> c.ra, mat |-> child + MatDelay])
@@ -310,7 +310,7 @@ Apply2(m, t) ==
       scNew == NewSC(child, n, t.sco, 0) ++ Claims2(m, t) ++ ResOuts2(m, t, 1)
       taxes == SumF([i \in DOMAIN t.fc |-> Tax2(t.fc[i].r, t.fc[i].h)], DOMAIN t.fc)
                + SumF([i \in DOMAIN t.res |-> IF t.res[i].kind = "renew" THEN Tax2(t.res[i].ren.nc.r, t.res[i].ren.nc.h) ELSE 0], DOMAIN t.res)
-      forf  == SumF([i \in DOMAIN t.res |-> IF t.res[i].kind = "expire" THEN c2[t.res[i].cid].h - c2[t.res[i].cid].mh ELSE 0], DOMAIN t.res)
+      forf  == SumF([i \in DOMAIN t.res |-> IF t.res[i].kind = "expire" THEN m.c2[t.res[i].cid].h - m.c2[t.res[i].cid].mh ELSE 0], DOMAIN t.res)
   IN [m EXCEPT
         !.sc = @ ++ scNew,
         !.sf = @ ++ NewSF(child, n, t.sfo, m.pool),
@@ -396,11 +396,11 @@ T_Rev2(m) == IF "rev2" \notin Templates \/ 2 \notin Vers THEN {} ELSE
      q \in {y \in Live2(m) \X RevShifts \X {0, 1} : y[2] <= m.c2[y[1]].r}}
 T_Res2(m) == IF "res2" \notin Templates \/ 2 \notin Vers THEN {} ELSE
   {[EmptyTx(2) EXCEPT !.res = <<[cid |-> q[1], kind |-> q[2], pf |-> "ok", ren |-> NoRen]>>, !.tag = q[2],
-                       !.slack = IF q[2] = "proof" THEN child - (c2[q[1]].ph + 1) ELSE child - (c2[q[1]].eh + 1)] :
+                       !.slack = IF q[2] = "proof" THEN child - (m.c2[q[1]].ph + 1) ELSE child - (m.c2[q[1]].eh + 1)] :
      q \in Live2(m) \X {"proof", "expire"}}
 \* renewal: roll a quarter of each side over, fund the rest of the new contract from one input
 RenewTx(m, cid, id, nr) ==
-  LET c == c2[cid]  rr == c.r \div 4  hr == c.h \div 4
+  LET c == m.c2[cid]  rr == c.r \div 4  hr == c.h \div 4
       nc == C2(nr, c.h, c.ra, child + 1, child + 3)
       need == nc.r + nc.h + Tax2(nc.r, nc.h) - rr - hr
   IN [EmptyTx(2) EXCEPT !.sci = <<In(id)>>, !.tag = "renew",
